@@ -108,6 +108,12 @@ CLAIMED = {
          "registry function x every array argument x 7 layouts x 3 heap perturbations in isolated workers, results compared and "
          "arguments checked for purity",
          "Rocq proof (array layer) + metamorphic API sweep in isolated processes"),
+ "C09": ("proof", "Coq theorems: the shared helper _get_output, RE-TRANSLATED from internal.py on every run (ordered rejection tests, "
+         "exception kinds, returned object), accepts a buffer iff dtype, shape and C-contiguity all match and rejects with ValueError/"
+         "TypeError; the multi-axis Gaussian buffer ping-pong returns the caller's buffer, whose last write ends the chain of passes, "
+         "for every number of axes. All 30 public functions with out/output are exercised on the fresh build with valid and invalid "
+         "buffers (identity of the returned object, equality with the call without out, rejection kind, untouched rejected buffers)",
+         "Rocq proof + Python-ast translator + behavioural check of every out= wrapper"),
 }
 NOT_YET = "check not built yet in this round (see DESIGN.md section 8 for the plan)"
 ALL = ["C%02d" % i for i in range(1, 21)]
